@@ -1,0 +1,12 @@
+//go:build !verif
+
+// Purpose: No-op verification hooks for normal builds.
+// Exports: none.
+// Role: Keeps hook call sites free of cost when the verif tag is off.
+// Invariants: Every function here is empty or returns the "not overridden" value.
+// Notes: See verif_on.go for the instrumented build.
+package ergo
+
+func verifPoint(string) {}
+
+func verifNextID() (string, bool) { return "", false }
